@@ -655,6 +655,16 @@ def _line(model, rep):
         def skv_len(self):
             return self.n
 
+        def skv_getattr(self, name):
+            if name == "dtype":
+                class IntDtype:              # cell indices, not a mask
+                    def skv_compare(self, op, other):
+                        return isinstance(op, ast.NotEq)
+                return IntDtype()
+            if name == "astype":
+                return PyFunc(lambda a, k, n: self)
+            raise Unsupported("marked set." + name)
+
         def __repr__(self):
             return self.name
 
@@ -1221,15 +1231,20 @@ def _admissible_input_not_refused(model, rep):
             par = fn.params()[1]
             uniq = [x for x in walk_no_nested(fn.node)
                     if isinstance(x, ast.Call) and src(x.func) == "np.unique"
-                    and x.args and src(x.args[0]) == par]
+                    and x.args and (src(x.args[0]) == par or src(
+                        x.args[0]).startswith(par + ".astype("))]
             if not uniq:
                 continue
             typed = any(
-                isinstance(x, ast.Call) and src(x.func) in (
+                (isinstance(x, ast.Call) and src(x.func) in (
                     "np.array", "np.asarray") and x.args and src(
                     x.args[0]) == par and any(
                     k.arg == "dtype" and "int" in src(k.value)
-                    for k in x.keywords)
+                    for k in x.keywords))
+                or (isinstance(x, ast.Call) and isinstance(
+                    x.func, ast.Attribute) and x.func.attr == "astype"
+                    and src(x.func.value) == par and x.args
+                    and "int" in src(x.args[0]))
                 for x in walk_no_nested(fn.node)
                 if getattr(x, "lineno", 0) <= uniq[0].lineno)
             cons = f"{fn.short()}:marked-set-integer"
@@ -1360,8 +1375,24 @@ def _entry_points(model, rep):
 
         def is_marked(e):
             return isinstance(e, ast.Name) and e.id in names
+        # a reduction under a test that the set *was given as a Boolean
+        # mask* (marked.dtype == bool) is the conversion of that mask
+        mask_branch = set()
+        for n in walk_no_nested(fn.node):
+            if isinstance(n, ast.If) and isinstance(n.test, ast.Compare) \
+                    and isinstance(n.test.left, ast.Attribute) \
+                    and n.test.left.attr == "dtype" \
+                    and is_marked(n.test.left.value) \
+                    and len(n.test.ops) == 1 and isinstance(
+                        n.test.ops[0], ast.Eq) and src(
+                        n.test.comparators[0]) in ("bool", "np.bool_"):
+                for b in n.body:
+                    for x in ast.walk(b):
+                        mask_branch.add(id(x))
         bad = []
         for n in walk_no_nested(fn.node):
+            if id(n) in mask_branch:
+                continue
             if isinstance(n, ast.Call):
                 f = n.func
                 if isinstance(f, ast.Attribute) and f.attr in REDUCE:
@@ -1496,8 +1527,12 @@ MUTANTS = [
       "                nv += nn\n                assert len(np.unique("
       "p[:, :nv].T, axis=0)) == nv\n"), "C13-R6"),
     ("segment refinement takes the marked set as given",
-     (_LI, "        marked = np.unique(np.asarray(marked, dtype=np.int64))",
+     (_LI, "        marked = np.unique(marked.astype(np.int64))",
       "        marked = np.unique(marked)"), "C13-R6"),
+    ("segment refinement reduces index sets like masks",
+     (_LI, "        if marked.dtype == bool:\n            marked = "
+      "np.nonzero(marked)[0]  # a mask of the cells\n",
+      "        marked = np.nonzero(marked)[0]\n"), "C13-R6"),
     ("tetrahedral tie-breaking noise of absolute size",
      (_TE, "        p = p + 1e-10 * np.abs(p[:, t]).max() * "
       "rng.random_sample(p.shape)",
@@ -1512,9 +1547,9 @@ MUTANTS = [
     ("periodic meshes inherit adaptive refinement again",
      ("skfem/mesh/mesh_dg.py", "    def _adaptive(self, *args, **kwargs):\n        raise NotImplementedError\n\n", ""), "C13-R4"),
     ("line refinement uses the marked array as given",
-     (_LI, "        marked = np.unique(np.asarray(marked, dtype=np.int64))"
+     (_LI, "        marked = np.unique(marked.astype(np.int64))"
       "\n\n        mid =",
-      "        marked = np.asarray(marked, dtype=np.int64)\n\n        "
+      "        marked = marked.astype(np.int64)\n\n        "
       "mid ="), "C13-R2"),
     ("second-order triangles refine adaptively without their subdomains",
      ("skfem/mesh/mesh_tri_2.py",
@@ -1638,8 +1673,8 @@ MUTANTS = [
 ]
 TWINS = [
     ("segment refinement converts the marked set in two steps",
-     (_LI, "        marked = np.unique(np.asarray(marked, dtype=np.int64))",
-      "        marked = np.asarray(marked, dtype=np.int32)\n        marked "
+     (_LI, "        marked = np.unique(marked.astype(np.int64))",
+      "        marked = marked.astype(np.int32)\n        marked "
       "= np.unique(marked)")),
     ("tetrahedral noise measured from the corner of the bounding box",
      (_TE, "        p = p - p[:, t[0, :1]]\n",
